@@ -1286,3 +1286,144 @@ def chain_discipline(ctx, rule, f, producers, label):
         okh = bool(srcs) and all(k in [h.id for h in heads] or k in tsrc or
                                  (k in f.insts and f.insts[k].op == 'load' and f.field(f.insts[k]) == 'myth_thread.next') for k in srcs)
         ctx.ob(rule, '%s: release walks the chain from its head' % label, okh, 'to_wake = head; push; to_wake = next', loc=x.loc)
+
+
+def unnormalised_index_uses(fn, accs, is_raw, sentinel=-1):
+    """[(access, raw_inst)]: a *raw* value (is_raw(inst): it may hold `sentinel`, e.g. worker == -1 for "more than one worker")
+    reaches the address of one of the memory accesses `accs` although it was neither replaced on the == sentinel edge of a test
+    of that very value (normalising phi / select) nor is the access confined to the != sentinel edge of such a test."""
+    from .ir import EdgePoint, iter_refs
+    bad = []
+
+    def is_sent(o):
+        c = const_int(o)
+        return c is not None and (c == sentinel or c == sentinel + (1 << 32) or c == sentinel + (1 << 64))
+
+    def tests_of(x):
+        out = []
+        for ic in fn.users(x):
+            if ic.op == 'icmp' and ic.pred in ('eq', 'ne') and (is_sent(ic.ops[1]) or is_sent(ic.ops[0])):
+                for cond, pol in cond_chain(fn, ic.id):
+                    out.append((cond, pol if ic.pred == 'eq' else not pol))
+        return out
+
+    def normalising(ins):
+        """the incoming / operand X such that ins == (X == sentinel ? replacement : X), or None"""
+        if ins.op == 'select':
+            c, a, b = ins.ops
+            for x, other_is_true in ((b, True), (a, False)):
+                xi = fn.strip(x)
+                if isinstance(xi, str) and any(cond == c and eqpol == other_is_true for cond, eqpol in tests_of(xi)):
+                    return x
+            return None
+        inc = ins.d['incoming']
+        for v, b in inc:
+            xi = fn.strip(v)
+            if not isinstance(xi, str):
+                continue
+            for cond, eqpol in tests_of(xi):
+                ok = True
+                for v2, b2 in inc:
+                    ep = EdgePoint(fn, b2, ins.block.id)
+                    want = (not eqpol) if (v2 is v and b2 == b) else eqpol
+                    if not fn.on_edge(cond, want, ep):
+                        ok = False
+                        break
+                if ok:
+                    return v
+        return None
+
+    def walk(ref, acc, seen, guarded_for=None):
+        ins = fn.get(ref) if isinstance(ref, str) else None
+        if ins is None or ins.id in seen:
+            return
+        seen.add(ins.id)
+        if is_raw(ins):
+            if ins.id != guarded_for and not any(fn.on_edge(cond, not eqpol, acc) for cond, eqpol in tests_of(ins.id)):
+                bad.append((acc, ins))
+            return
+        if ins.op == 'select' or (ins.op == 'phi' and len(ins.d['incoming']) > 1):
+            x = normalising(ins)
+            vals = list(ins.ops[1:]) if ins.op == 'select' else [v for v, _b in ins.d['incoming']]
+            for v in vals:
+                walk(v, acc, seen, fn.strip(x) if (x is not None and v is x) else None)
+            return
+        if ins.op in ('load', 'call', 'alloca', 'invoke'):
+            return
+        for r in iter_refs(ins.d):
+            walk(r, acc, seen, guarded_for if ins.op in fn.PASS_OPS else None)
+
+    for acc in accs:
+        addr = acc.ops[1] if acc.op == 'store' else acc.ops[0]
+        walk(addr, acc, set())
+    return bad
+
+
+NATIVE_FORWARD_EXCEPTIONS = {
+    # public function: body it is defined to reach although the names differ (argument lists differ too: only the callee is decided)
+    'myth_create': 'myth_create_ex_body',      # creation without an attribute object
+    'myth_init': 'myth_init_ex_body',          # initialisation with default attributes
+    'myth_sched_yield': 'myth_yield_body',     # alias kept for sched_yield users
+}
+
+
+def native_forwarding(ctx, rule, fl, select, floor=1):
+    """public entry points of the native API (myth_if_native.c): `myth_X(args)` reaches exactly the implementation
+    `myth_X_body`, with its parameters forwarded position by position and the body's result returned.  `select(name)` picks the
+    entry points that belong to the calling property.  A copy-and-paste slip between siblings (trylock -> lock_body, signal ->
+    broadcast_body, swapped arguments, dropped result) compiles, and passes every test that does not use that entry point."""
+    raw = ctx.ssa('myth_if_native.c', fl)
+    pub = sorted(n for n, f in raw.functions.items() if not f.internal and n.startswith('myth_'))
+    bodies = sorted(n for n in raw.functions if n.endswith('_body'))
+    v = ctx.view('myth_if_native.c', roots=pub, stops=bodies, flavour=fl)
+    n_sel = 0
+    for n in pub:
+        if not select(n):
+            continue
+        want = NATIVE_FORWARD_EXCEPTIONS.get(n, n + '_body')
+        if want not in raw.functions:
+            continue        # implemented in place (no separate body): decided by the rules that analyse it
+        f = ctx.need_fn(v, n)
+        n_sel += 1
+        bc = [c for c in f.calls() if c.callee and c.callee.endswith('_body')]
+        ctx.ob(rule, '%s reaches %s only' % (n, want), [c.callee for c in bc] == [want],
+               'the public entry point calls the implementation of the same name, once, and no sibling', loc=f.loc,
+               detail='calls ' + ', '.join(c.callee for c in bc))
+        if [c.callee for c in bc] != [want] or n in NATIVE_FORWARD_EXCEPTIONS:
+            continue
+        c = bc[0]
+        npar = len(f.params)
+        ctx.ob(rule, '%s forwards its parameters in order' % n,
+               len(c.args) == npar and all(same_value(f, c.args[i], 'a%d' % i) for i in range(npar)),
+               'argument i of the body is parameter i of the entry point', loc=c.loc)
+        rets = [r for r in f.order if r.op == 'ret' and r.ops]
+        if rets and c.ty not in (None, 'void'):
+            ctx.ob(rule, '%s returns the body\'s result' % n, all(same_value(f, r.ops[0], c.id) for r in rets),
+                   'the result of the implementation is what the caller sees', loc=c.loc)
+    ctx.floor(rule, floor)
+    return n_sel
+
+
+def accessor_agreement(ctx, rule, v, struct, setfmt, getfmt, table):
+    """attribute accessors: `set<X>` stores parameter i into field F of the attribute object and nothing else of the object, and
+    `get<X>` hands out that same field F through out-parameter i.  table: X -> [(param index, field)].  A setter that lands in a
+    sibling's field compiles and is invisible to every test that does not read the attribute back."""
+    for x, pairs in sorted(table.items()):
+        s = ctx.need_fn(v, setfmt % x)
+        g = ctx.need_fn(v, getfmt % x)
+        want = dict((struct + '.' + fld, 'a%d' % i) for i, fld in pairs)
+        sts = [st for st in s.order if st.op == 'store' and s.field(st).startswith(struct + '.')]
+        got = {}
+        for st in sts:
+            got.setdefault(s.field(st), []).append(st)
+        ok = set(got) == set(want) and all(len(l) == 1 and same_value(s, l[0].ops[0], want[f]) for f, l in got.items())
+        ctx.ob(rule, '%s stores its argument(s) in %s' % (setfmt % x, ', '.join(f for _i, f in pairs)), ok,
+               'the setter writes exactly the field(s) it is named after, with the value(s) it was given', loc=s.loc,
+               detail='writes ' + ', '.join(sorted(got)))
+        okg = True
+        for i, fld in pairs:
+            outs = [st for st in g.order if st.op == 'store' and same_value(g, g.ap(st.ops[1]).root, 'a%d' % i)]
+            okg = okg and len(outs) == 1 and all(
+                (lambda l: l is not None and l.op == 'load' and g.field(l) == struct + '.' + fld)(g.get(g.strip(o.ops[0]))) for o in outs)
+        ctx.ob(rule, '%s reads %s' % (getfmt % x, ', '.join(f for _i, f in pairs)), okg,
+               'the getter returns the field(s) the setter wrote', loc=g.loc)
